@@ -115,6 +115,8 @@ CORPUS = [
     S(tree_step(["arr", "Float", "a"], ["t", [["a", [2], "float32"], ["a", [3], "float32"]]])),
     S(tree_step(["arr", "Float", "a"], ["t", [["a", [2], "float32"], ["a", [2], "float32"]]]), {"kind": "arr", "dim": "a", "shape": [3]}),
     S({"kind": "arr", "dim": "a", "shape": [3]}, tree_step(["arr", "Float", "a b"], ["d", {"w": ["a", [3, 4], "float32"], "b": ["a", [3, 5], "float32"]}]), {"kind": "arr", "dim": "b", "shape": [9]}),
+    # the bare PyTree accepts EVERYTHING, also what JAX cannot flatten
+    S(tree_step(None, ["M", [["i", 1], ["i", 2]]])), S(tree_step(None, ["t", [["i", 1], ["M", [["s", "x"], ["o"]]]]])), S(tree_step(None, ["F"])), S(tree_step(None, ["l", [["F"], ["i", 3]]])),
     S(tree_step(None, ["o"])), S(tree_step("any", ["t", [["o"], ["n"]]])), S(tree_step("int", ["n"])), S(tree_step("str", ["n"])),
     S(tree_step("int", ["C", [["i", 1], ["l", [["i", 2]]]]])), S(tree_step("int", ["C", [["s", "x"]]])),
     S(tree_step(["pytree", "int", None], ["t", [["i", 1], ["l", [["i", 2], ["s", "x"]]]]])),
